@@ -16,10 +16,10 @@ func init() {
 	Registry["C04"] = func(c *Ctx) {
 		c.R.NotDecided = append(c.R.NotDecided, "equality of the re-read message sequence with the written one (value level)")
 		c04FullReads(c)
+		noPanicFor(c, "C04") // first: it computes the helper summaries that LIMITS leans on
 		c04Limits(c)
 		c04TunnelWrite(c)
 		peekLifetimeRule(c, "C04/PEEK-LIFETIME", []string{"pkg/base", "pkg/conn", "internal/base64streamreader", ""}, 8)
-		noPanicFor(c, "C04")
 	}
 }
 
@@ -159,19 +159,10 @@ func c04Limits(c *Ctx) {
 			}
 			r.Check(okv, "C04/LIMITS", fmt.Sprintf("%s calls %s #%d", fnShort(ref.Caller), helper, i+1), p.Pos(ci.Pos()), "limit is a constant <= 4096", "the token read is not limited by a constant")
 		}
-		// the helper itself stops at n: its loop counter is compared with the parameter
-		bounded := false
-		for _, b := range h.Blocks {
-			if len(b.Instrs) == 0 {
-				continue
-			}
-			if iff, ok := b.Instrs[len(b.Instrs)-1].(*ssa.If); ok {
-				if bo, ok := iff.Cond.(*ssa.BinOp); ok && (bo.Op == token.LEQ || bo.Op == token.LSS) && bo.Y == ssa.Value(h.Params[len(h.Params)-1]) {
-					bounded = true
-				}
-			}
-		}
-		r.Check(bounded, "C04/LIMITS", helper+" stops at its limit", p.Pos(h.Pos()), "loop counter compared with the limit parameter", "the helper no longer stops at the limit it is given")
+		// the helper itself stops at n: its loop counter is compared with the parameter, or it hands
+		// the parameter to a helper of the package that does
+		bounded := stopsAtParam(h, len(h.Params)-1, 0)
+		r.Check(bounded, "C04/LIMITS", helper+" stops at its limit", p.Pos(h.Pos()), "loop counter compared with the limit parameter (possibly in the helper it delegates to)", "the helper no longer stops at the limit it is given")
 	}
 	// (d) header loop: per-entry counter
 	hu := p.Func("pkg/base", "Header.unmarshal")
@@ -283,4 +274,45 @@ func c04TunnelWrite(c *Ctx) {
 			r.Check(okArg, "C04/TUNNEL", fnShort(ref.Caller)+" passes the stored header reader", p.Pos(ci.Pos()), "argument is the connection's httpReadBuf", "the reader handed to the tunnel is not the one that parsed the POST header")
 		}
 	}
+}
+
+// stopsAtParam: fn has a loop whose counter is compared with its parameter idx
+// (i <= n / i < n), or it passes that parameter on to a function of its package
+// of which the same holds.
+func stopsAtParam(fn *ssa.Function, idx, depth int) bool {
+	if fn == nil || idx < 0 || idx >= len(fn.Params) || depth > 2 {
+		return false
+	}
+	prm := ssa.Value(fn.Params[idx])
+	for _, b := range fn.Blocks {
+		if len(b.Instrs) == 0 {
+			continue
+		}
+		if iff, ok := b.Instrs[len(b.Instrs)-1].(*ssa.If); ok {
+			if bo, ok := iff.Cond.(*ssa.BinOp); ok {
+				if (bo.Op == token.LEQ || bo.Op == token.LSS) && bo.Y == prm {
+					return true
+				}
+				if (bo.Op == token.GEQ || bo.Op == token.GTR) && bo.X == prm {
+					return true
+				}
+			}
+		}
+		for _, in := range b.Instrs {
+			ci, ok := in.(*ssa.Call)
+			if !ok {
+				continue
+			}
+			cal := ci.Call.StaticCallee()
+			if cal == nil || cal.Pkg != fn.Pkg {
+				continue
+			}
+			for k, a := range ci.Call.Args {
+				if a == prm && stopsAtParam(cal, k, depth+1) {
+					return true
+				}
+			}
+		}
+	}
+	return false
 }
